@@ -47,7 +47,7 @@ def run(chk):
     chk.note("rejection_model_states", r0.distinct)
 
     # 2. PRF purity
-    r1 = lib.tlc("PRFModel", "MC_PRFModel.cfg", workers=4, timeout=1800)
+    r1 = lib.tlc("PRFModel", "MC_PRFModel.cfg" if tier == "quick" else "MC_PRFModel_thorough.cfg", workers=4, timeout=1800)
     chk.add_tlc(r1, "PRFModel")
     if not r1.ok:
         raise lib.ToolError("PRFModel: %s\n%s" % (r1.violated, r1.trace[:1500]))
@@ -58,6 +58,10 @@ def run(chk):
     lib.write_ndjson(chk.path("orders.ndjson"), cases)
     chk.note("histories_enumerated", nh)
     chk.note("fixed_histories_large_types_and_permutations", nfixed)
+    kinds_t = {}
+    for t in cases[0]["types"]:
+        kinds_t[t["k"]] = kinds_t.get(t["k"], 0) + 1
+    chk.note("output_types_by_kind", kinds_t)
     lib.harness(["c15-prf", chk.path("orders.ndjson"), chk.path("prf.ndjson")], binary="values", timeout=3000)
     recs = lib.read_ndjson(chk.path("prf.ndjson"))
     types = recs[0]["types"]
@@ -89,7 +93,7 @@ def run(chk):
     chk.note("largest_output_bytes", max(int(r["dg"].split(":")[0]) for r in outs))
 
     # 3. bounded draws, permutations, replay
-    lib.harness(["c15-rej", chk.path("rej.ndjson"), chk.seed, tier], binary="values", timeout=3000)
+    lib.harness(["c15-rej", chk.path("rej.ndjson"), chk.seed, tier, chk.path("orders.ndjson")], binary="values", timeout=3000)
     rj = lib.read_ndjson(chk.path("rej.ndjson"))
 
     def sig_rj(rec, facets):
